@@ -74,6 +74,13 @@ CLAIMED["C19"] = {
   "technique": "machine-checked proof in Lean 4 (lens laws over the modelled containers, induction over adapter nesting) + model/implementation correspondence check + container/angle oracles",
 }
 
+CLAIMED["C20"] = {
+  "text": "Lean 4 theorems (Geodesy/Props/C20.lean) over the model of kp's main (reading, comment and blank-line removal, defaults, batching at the size taken from the source, transform, printing; the library call and the number formatter are parameters): for EVERY batch size and every split of the input over readable files, the output is the print-out of all coordinate lines taken as one set, in input order, one line each, and the run ends normally, whenever transform is batchable (kp_batch_independent, kp_file_split_independent, loop invariant by induction over lines and files); transform IS batchable for a tuple-by-tuple library call (C02) with requested -d and -D (transform_batchable); empty input ends normally (kp_empty_input_ok), an unreadable file gives failure status (kp_unreadable_file_fails), blank and comment lines are skipped (kp_skips_blank_and_comment). Tied to /repo by a correspondence run against the kp BINARY built from the working tree (stdout and exit status, exact; the model implements {:.N} formatting by exact decimal expansion with ties to even), incl. inputs of 24999/25000/25001/50000/60000 lines, several files, CRLF, sexagesimal values, 1-6 columns, all option combinations, and by an oracle comparing kp's output with the library called in-process.",
+  "design_ref": "DESIGN.md section 7, C20",
+  "note": "Partial: clap argument parsing and process I/O are outside the model; without -d / -D kp's heuristics depend on batch boundaries (excluded by the statement: 'requested decimals / dimension'); the --roundtrip clause is validated by the oracle.",
+  "technique": "machine-checked proof in Lean 4 (loop invariant over input lines and files) + model/binary correspondence check + in-process library oracle",
+}
+
 ALL = ["C%02d" % i for i in range(1, 21)]
 
 def main():
